@@ -174,7 +174,28 @@ def run(chk):
         nl += 1
         if fb is None or variant not in built:
             chk.add(Finding("R03-loop", "R03-loop::premise::%s::%s" % (fn, variant), "%s no longer ends in ParserError::%s: %s" % (fn, variant, why), fb.where() if fb else fn))
-    chk.rule("R03-premise", "failure exits that the progress table relies on", len(PREMISES), floor=1)
+    # premises of the audited table: sites accepted because "a token exists" rely on the entry points refusing an empty token list
+    # before a ParserState is built (get_line_offset indexes tokens[0], TokenIter::back undoes a successful next(), ...)
+    from . import guards, sym
+    GUARD_PREMISES = [
+        ("load_impl", r"parser::ParserState::(<'a>::)?new$", r"is_empty\(.*tokens.*\)", False,
+         "the token list of the main file is tested for emptiness (EmptyFileError) before the parser is created; a text of blanks/line breaks has no tokens"),
+    ]
+    npre = len(PREMISES)
+    for fn, callee_rx, atom_rx, want, why in GUARD_PREMISES:
+        fb = prog.bodies.get(fn)
+        ok = False
+        if fb is not None:
+            S = sym.Analyzer(prog, opaque=[r".*"]).summary(fn)      # callees are not expanded: only the guard structure of fn itself matters
+            for bi, t in fb.calls():
+                if re.search(callee_rx, t.get("res") or ""):
+                    F = guards.reach_formula(fb, S, bi)
+                    iv = guards.implied_values(F) if F is not True else {}
+                    ok = any(re.fullmatch(atom_rx, k[1]) and v == {want} for k, v in (iv or {}).items())
+        npre += 1
+        if not ok:
+            chk.add(Finding("R03-premise", "R03-premise::%s::guard" % fn, "%s: %s -- that test no longer guards the call" % (fn, why), fb.where() if fb else fn))
+    chk.rule("R03-premise", "failure exits the progress table relies on, and guards the audited table relies on", npre, floor=2)
     # R03-noinclude: tokenize() never lets an Include token through (supports the audited Include arm)
     b = prog.bodies.get("tokenizer::tokenize")
     n = 0
